@@ -455,7 +455,7 @@ func init() {
 			if !e.hasRunnable(c.st) {
 				return true
 			}
-			c.st.resume = append(c.st.resume, &Thread{frames: c.st.frames})
+			c.st.resume = append(c.st.resume, &Thread{frames: c.st.frames, id: c.st.curTID})
 			c.st.frames = nil
 			return false
 		},
